@@ -18,8 +18,7 @@ Output: `ok doc=<value> n=<count> | t=<title> c=<shell expression> e=<expectatio
 `err <kind> [<line>]`, or `missing-yaml <key>` if the model needs a verdict that the table lacks.
 -/
 open Scrut Scrut.Markdown Scrut.LineParser
-namespace Driver
-
+namespace Driver.MarkdownOps
 def utf8Decode (bs : List UInt8) : Option (List Char) :=
   (String.fromUTF8? (ByteArray.mk bs.toArray)).map (·.toList)
 
@@ -42,6 +41,7 @@ def showLpErr : LineParser.Err → String
   | .exitCodeTwice l => s!"err exit-code-twice {l}"
   | .expectationParse l => s!"err expectation {l}"
   | .noShellExpression l => s!"err no-shell-expression {l}"
+  | .exitCodeWithoutCommand l => s!"err exit-code-without-command {l}"
 
 def showErr : Markdown.Err → String
   | .crash => "crash"
@@ -104,4 +104,4 @@ def opMd (args : List String) : String :=
     | _, _, _, _, _ => "bad-op"
   | _ => "bad-op"
 
-end Driver
+end Driver.MarkdownOps
